@@ -13,6 +13,10 @@ value ties (real function vs model function on the same arguments)
 oracles (model-independent, dense numpy/scipy/qiskit)
     to_matrix() of every builder vs an explicit Kronecker sum (site 0 leftmost); dense vs sparse; compression bound;
     from_matrix round trip; Operator(circuit) vs expm(-iHT) with step halving; 1-D vs 2-D Hubbard on a chain.
+extension xt07 (section "Trotter consistency" near the end of this file): kind `trotter-deriv` — the real one-step circuit of all six
+    builders: gate list vs the model step (trotter-deriv-step-*), entries of MPO.ising / MPO.heisenberg .to_matrix() vs the automaton path
+    sum at the index digits (trotter-deriv-ham-*), and the oracle trotter-deriv-*: generators sum to dt*H, d/d(dt) of the one-step unitary
+    at dt = 0 is -iH, the N-step circuit is the N-th power of the step, N-step error ~ 1/N.
 """
 from __future__ import annotations
 
@@ -1623,13 +1627,6 @@ def xt_setup(inp, rng):
         ham_case = None
         if mpo is not None:  # the Hamiltonian builder of the same name IS the documented Hamiltonian (site 0 leftmost -> qiskit order)
             hm = np.asarray(mpo.to_matrix(), dtype=complex)
-            perm = np.array([int(format(k, f"0{L}b")[::-1], 2) for k in range(2**L)])
-            Hm = hm[np.ix_(perm, perm)]
-            dd = float(np.linalg.norm(Hm - H))
-            if dd > 1e-9 * (1 + float(np.linalg.norm(H))):
-                return None, f"{b}(L={L}, periodic={per}): MPO builder of the same name differs from the documented Hamiltonian by {dd:.2e}"
-            H = Hm
-            hsrc = "MPO." + ("ising" if b == "ising" else "heisenberg") + ".to_matrix()"
             if rec:  # entries of the real to_matrix() vs the automaton path sum of the captured terms at the digits of (row, column)
                 pairs = []
                 for _ in range(6):
@@ -1641,6 +1638,13 @@ def xt_setup(inp, rng):
                 ham_case = {"req": f"fsmpath {L} | {terms_string(rec[0][0]) if rec[0][0] else 'none'} | " + " ; ".join(" ".join(map(str, digs(i) + digs(j))) for i, j in pairs),
                             "impl": " ".join(cfmt(hm[i, j]) for i, j in pairs), "oracle": None, "kind": "trotter-deriv-ham-" + b,
                             "sig": f"tderivham:{b}:{L}:{per}", "nontrivial": any(abs(hm[i, j]) > 0 for i, j in pairs)}
+            perm = np.array([int(format(k, f"0{L}b")[::-1], 2) for k in range(2**L)])
+            Hm = hm[np.ix_(perm, perm)]
+            dd = float(np.linalg.norm(Hm - H))
+            if dd > 1e-9 * (1 + float(np.linalg.norm(H))):
+                return None, (f"{b}(L={L}, periodic={per}): MPO builder of the same name differs from the documented Hamiltonian by {dd:.2e}", ham_case)
+            H = Hm
+            hsrc = "MPO." + ("ising" if b == "ising" else "heisenberg") + ".to_matrix()"
         return (one, many, H, req, f"{b}(L={L}, periodic={per})", f"{b}:{L}:{per}", hsrc, ham_case), None
     if b in ("ising2d", "heis2d"):
         R, C = inp["R"], inp["C"]
@@ -1694,7 +1698,8 @@ def run_trotter_deriv(inp):
     b = inp["builder"]
     setup, bad = xt_setup(inp, rng)
     if setup is None:
-        return {"req": None, "impl": None, "oracle": ok([bad]), "kind": "trotter-deriv-" + b, "sig": f"tderiv:{b}:mpo"}
+        msg, ham_case = bad
+        return [{"req": None, "impl": None, "oracle": ok([msg]), "kind": "trotter-deriv-" + b, "sig": f"tderiv:{b}:mpo"}] + ([ham_case] if ham_case else [])
     one, many, H, req, what, sig, hsrc, ham_case = setup
     dim = H.shape[0]
     eye = np.eye(dim, dtype=complex)
